@@ -93,6 +93,8 @@ mod df;
 pub mod msg;
 pub mod rtcm_error;
 pub mod util;
+#[cfg(rtcm_rs_verif)]
+pub mod verif;
 
 pub use msg::message::{Message, MessageBuilder};
 
